@@ -491,6 +491,13 @@ def main():
             res['configs'] += 1
         except Exception:
             pass
+        try:
+            srcp = dict(preset='2022 QH nfp7', kwargs=dict(nphi=31))          # 16+ axis harmonics: more than VMEC's default NTOR
+            qp = build_src(srcp)
+            res['violations'] += R.run_sequence(qp, srcp, [dict(m='to_vmec', args=[{'__tmp__': 'input.fixedp'}], kw=dict(r=0.02, ntheta=6)), dict(m='B_mag', args=[0.02, 0.3, 0.4])], set(qp.__dict__))
+            res['configs'] += 1
+        except Exception:
+            pass
         thorough = a.tier == 'thorough'
         n_obj = a.n if a.mode == 'check' else 10 ** 9
         budget = a.budget if a.mode == 'search' else (55 if not thorough else max(a.budget, 600))
